@@ -63,11 +63,38 @@ def prefix_language(tc, comment_class_extra=''):
     return z3.Concat(z3.Option(lit(BOM)), body), dict(g1=g1, g2=g2, comment=comment, newline=newline)
 
 
+def token_table_obligations(version):
+    """T: the shape facts about one live token collection that the contract of _get_token_collection states
+    (contracts/tokenizer.py TC_FACTS): decided by inspection of the finite tables."""
+    import re as _re
+    tc = _tc(version)
+    bad = []
+    if not (isinstance(tc.pseudo_token, _re.Pattern) and isinstance(tc.whitespace, _re.Pattern)):
+        bad.append('pseudo_token / whitespace are not compiled patterns')
+    for k, p in tc.endpats.items():
+        if not (isinstance(k, str) and isinstance(p, _re.Pattern)):
+            bad.append('endpats[%r]' % (k,))
+    for k, q in tc.fstring_pattern_map.items():
+        if not (isinstance(q, str) and len(q) >= 1 and q in tc.endpats):
+            bad.append('fstring_pattern_map[%r] = %r has no end pattern' % (k, q))
+    for q in tc.triple_quoted:
+        if q not in tc.endpats:
+            bad.append('triple quote %r has no end pattern' % (q,))
+    for q in tc.single_quoted:
+        if not (1 <= len(q) <= 3 and q[-1:] in tc.endpats):
+            bad.append('single quote %r: last character has no end pattern' % (q,))
+    return [Ob('tok:%s:tables' % version, 'T', 'class-table', DISCHARGED if not bad else REFUTED, 0,
+               'end patterns exist for every f-string quote, triple quote and for the quote character of every (prefixed) '
+               'single quote; %d end patterns, %d single, %d triple quotes' % (len(tc.endpats), len(tc.single_quoted), len(tc.triple_quoted))
+               if not bad else '; '.join(bad[:5]), None if not bad else dict(failures=bad[:10]),
+               functions=[TOK + '._create_token_collection', TOK + '.tokenize_lines'], replayed=True if bad else None)]
+
+
 def tokenizer_obligations(version, props=('C09',)):
     f = [TOK + '.tokenize_lines', TOK + '._create_token_collection']
     tc = _tc(version)
     v = version
-    obs = []
+    obs = list(token_table_obligations(version))
     groups, t, o = _shape('re:pseudo_token[%s]:shape' % v, tc.pseudo_token, 2, f)
     obs.append(o)
     if groups is None:
